@@ -17,7 +17,7 @@ for p in props:
             "evidence_file": "/verif/evidence/%s.json" % pid,
             "replay_cmd_template": "./vcheck replay {path}",
             "engine": "pyvc",
-            "level_claimed": {"category": "proof", "text": c["text"], "design_ref": c.get("design_ref", "DESIGN.md section 5, " + pid)},
+            "level_claimed": {"category": "proof", "text": c["text"], "design_ref": c.get("design_ref", "DESIGN.md section 0a.4 (as built) and section 5, " + pid)},
             "level_note": c["note"],
             "technique": c.get("technique", "contract-based deductive verification: sidecar contracts on the real functions, "
                                              "VCs generated from the Python AST of /repo's working tree, discharged by z3/cvc5"),
